@@ -48,7 +48,7 @@ class DstScenario:
 
     def _done(self, o, ev):
         self.events.append(ev)
-        self.ctx.note(ev, rigs.exc_name(o.exc), o.kinds(), o.step1.name)
+        self.ctx.note(ev, rigs.exc_name(o.exc), [describe(p) for p in o.pdus], o.step1.name)
         o.call = ev
         return o
 
@@ -172,6 +172,17 @@ class DstScenario:
         if kind == "EOF_OTHER":
             return self.eof(seq=self.ids.other_seq)
         raise symex.HarnessError(f"unknown event {kind}")
+
+
+def describe(p):
+    k = rigs.pdu_kind(p)
+    if k == "NAK":
+        return ["NAK", p.start_of_scope, p.end_of_scope, [list(r) for r in p.segment_requests]]
+    if k == "FIN":
+        return ["FIN", int(p.condition_code), int(p.delivery_code), int(p.file_status)]
+    if k == "ACK":
+        return ["ACK", int(p.directive_code_of_acked_pdu), int(p.condition_code_of_acked_pdu)]
+    return k
 
 
 def is_internal(exc):
